@@ -6,6 +6,7 @@ unset GOFLAGS GOWORK
 for id in $ids; do
   sub=.
   grep -q "^package ast" /verif/seeded/$id/demo_test.go && sub=ast
+  [ -f /verif/seeded/$id/DEMO_DIR ] && sub=$(cat /verif/seeded/$id/DEMO_DIR)
   nice -n 15 /verif/tools/confirm_seed.sh $id $sub
 done
 echo ALLDONE
